@@ -554,7 +554,12 @@ fn record(path: &str, seed: u64, runs: usize) {
                 catch(|| terms[i].borrow_mut().disconnect())
             } else if roll < 7 {
                 let r = rng.below(ts.len() as u64) as usize;
-                let st = State::new_raw(rng.float(-20, 20), rng.float(-20, 20), rng.float(-20, 20));
+                // one write in four draws every component from a small palette (the smallest subnormals with odd mantissas among them), so
+                // that linked terminals often hold EQUAL components: the mean of x and x is x exactly
+                let pal = [f32::from_bits(1), f32::from_bits(3), f32::from_bits(5), -f32::from_bits(7), 0.3f32, -2.5e10f32];
+                let comp = |r: &mut Rng, palette: bool| if palette { pal[r.below(pal.len() as u64) as usize] } else { r.float(-20, 20) };
+                let palette = rng.below(4) == 0;
+                let st = State::new_raw(comp(&mut rng, palette), comp(&mut rng, palette), comp(&mut rng, palette));
                 ev["op"] = json!("setstate");
                 ev["t"] = json!(r as i64 + 1);
                 ev["keys"] = json!([f32_key(st.position), f32_key(st.velocity), f32_key(st.acceleration)]);
